@@ -172,6 +172,20 @@ func NewWorld(r *rand.Rand, dir string, seed []byte, hook func(*World)) (*World,
 	if err != nil {
 		return nil, fmt.Errorf("Create: %w", err)
 	}
+	// with the birthday block set (as after a wallet's first sync) the manager
+	// refuses a synced-to block whose predecessor it has no hash for
+	err = walletdb.Update(w.DB, func(tx walletdb.ReadWriteTx) error {
+		ns := tx.ReadWriteBucket(NS)
+		m, err := waddrmgr.Open(ns, w.PubPass, w.Params)
+		if err != nil {
+			return err
+		}
+		defer m.Close()
+		return m.SetBirthdayBlock(ns, waddrmgr.BlockStamp{Hash: *w.Params.GenesisHash, Height: 0, Timestamp: w.Params.GenesisBlock.Header.Timestamp}, true)
+	})
+	if err != nil {
+		return nil, fmt.Errorf("SetBirthdayBlock: %w", err)
+	}
 	for _, s := range waddrmgr.DefaultKeyScopes {
 		if err := w.registerScope(s, waddrmgr.ScopeAddrMap[s]); err != nil {
 			return nil, err
@@ -424,10 +438,14 @@ func errCode(err error) string {
 	if err == nil {
 		return ""
 	}
-	if me, ok := err.(waddrmgr.ManagerError); ok {
-		return me.ErrorCode.String()
-	}
 	if me, ok := err.(*waddrmgr.ManagerError); ok {
+		err = *me
+	}
+	if me, ok := err.(waddrmgr.ManagerError); ok {
+		// the code has no entry in waddrmgr's string table ("Unknown ErrorCode (23)")
+		if me.ErrorCode == waddrmgr.ErrBlockNotFound {
+			return "ErrBlockNotFound"
+		}
 		return me.ErrorCode.String()
 	}
 	return "other:" + err.Error()
